@@ -872,6 +872,35 @@ func scenarios(c *vf.Ctx) (two1, three1, two2 []scenario) {
 	return
 }
 
+// isolated: two tables created one after the other share nothing - a name registered (released) in
+// one is unknown to (still held in) the other, and a new table starts empty.
+func isolated(c *vf.Ctx) bool {
+	ok := true
+	for _, secured := range []bool{false, true} {
+		t1 := nbtns.NewNetBIOSNameServer(secured)
+		e0 := len(table(t1))
+		err1 := t1.RegisterName("ISOLATION", nbtns.Unique, addrs[0], time.Hour)
+		t2 := nbtns.NewNetBIOSNameServer(secured)
+		e2 := len(table(t2))
+		_, _, qerr := t2.QueryName("ISOLATION")
+		err2 := t2.RegisterName("ISOLATION", nbtns.Unique, addrs[2], time.Hour)
+		ow1, _, _ := t1.QueryName("ISOLATION")
+		rel := t2.ReleaseName("ISOLATION", addrs[2])
+		ow1b, _, q1b := t1.QueryName("ISOLATION")
+		good := e0 == 0 && err1 == nil && e2 == 0 && qerr != nil && err2 == nil && len(ow1) == 1 && canon(ow1[0]) == canon(addrs[0]) &&
+			rel == nil && q1b == nil && len(ow1b) == 1 && canon(ow1b[0]) == canon(addrs[0])
+		// leave nothing behind in whatever the two tables may share
+		t1.ReleaseName("ISOLATION", addrs[0])
+		t1.ReleaseName("ISOLATION", addrs[2])
+		c.Evals(1)
+		c.Check("C17/seq/a-table-depends-only-on-its-own-history", good, func() string {
+			return fmt.Sprintf("NewNetBIOSNameServer(%v) twice: first table starts with %d records; Register(ISOLATION,U,%s) in the first = %v; the second table starts with %d records, its Query(ISOLATION) err=%v, its Register(ISOLATION,U,%s) = %v; the first then answers %v; after Release in the second (%v) the first answers %v (err=%v) - a table must behave like a map of its own", secured, e0, addrs[0], err1, e2, qerr, addrs[2], err2, ow1, rel, ow1b, q1b)
+		})
+		ok = ok && good
+	}
+	return ok
+}
+
 func run(c *vf.Ctx) {
 	if !nbstate.Readable() {
 		c.Fatalf("cannot find the private name table of NetBIOSNameServer (a map from string to NameRecord): harness out of date")
@@ -879,6 +908,13 @@ func run(c *vf.Ctx) {
 	c.Rule("sequential: BFS to fix-point over the real table, alphabet = Register{2 names x U/G x 3 address forms x ttl +-1h}, Query, Release, Refresh, MarkConflict, CleanExpired (41 ops; thorough adds a 3-name/4-address run); state key = dump of the private map + reference-model state; " +
 		"concurrent: every interleaving at RWMutex granularity (no preemption bound: the bound is set above the number of scheduling points) of 2 threads x 1 op, 3 threads x 1 op, 2 threads x 2 ops over a colliding operation pool from 5-6 seed states; distinct = distinct states + distinct call/return histories")
 	c.Assume("interleavings are explored at synchronisation-point granularity under sequential consistency; accesses outside any lock are only sampled by the separate free-running -race pass; expiry is decided by the sign of the TTL (+-1h) so the wall clock cannot flip a verdict")
+
+	// Every exploration below builds a fresh table per history (and several at once, in parallel
+	// workers). That is only sound - and the property's "behaves like an atomic map" only meaningful -
+	// if a table's content is determined by ITS OWN history: checked first, sequentially.
+	if !isolated(c) {
+		return
+	}
 
 	t0 := time.Now()
 	sequential(c, []string{"A", "B"}, 3, c.Thorough(), "2names")
